@@ -127,15 +127,20 @@ def inline_sync(A, ci, B):
     A["locals"] = A["locals"] + list(B["locals"])
     # a helper inlined twice into one function (or whose variables are spelled like the caller's) keeps distinct variable names:
     # the rules address variables by name within one body
+    # (a name the helper shares with the caller itself is kept: it is nearly always the parameter bound to the caller's variable)
     taken = {n for n, pl in A["vars"]}
+    inl = A.setdefault("_inl_names", [])
     ren = {}
     for name, place in B["vars"]:
-        if name in taken and name not in ren:
+        if name in inl and name not in ren:
             k = 2
             while "%s~%d" % (name, k) in taken:
                 k += 1
             ren[name] = "%s~%d" % (name, k)
         A["vars"].append([ren.get(name, name), _shift_place(place, off)])
+    for name, place in B["vars"]:
+        if ren.get(name, name) not in inl:
+            inl.append(ren.get(name, name))
     # parameters := operands
     for i, a in enumerate(t["args"]):
         A["blocks"][ci]["s"].append({"lhs": [off + 1 + i], "rv": {"r": "use", "o": copy.deepcopy(a)}, "at": t["at"]})
